@@ -43,3 +43,38 @@ REG.contract('C11', I, 'get_destdir_path', params={'destdir': Str, 'fullprefix':
                       'implies(not fn_path_has_root(path), result == os.path.join(fullprefix, path))'],
              opaque_fns={'path_has_root': ([Str], Bool), 'destdir_join': ([Str, Str], Str)}, floor=2,
              note='absolute destinations are re-rooted under DESTDIR, relative ones go under the (already DESTDIR-prefixed) prefix')
+
+# ---- install_emptydir: every selected empty directory is created AND gets its declared mode — whether or not the directory
+# already exists (another rule may have created it, or an earlier install).  The loop is unrolled: the contract is stated for
+# 0, 1 and 2 entries with arbitrary contents (the iterations are independent: the only state carried over is
+# did_install_something); longer lists are covered by the bounded install layer.
+from pyvc.api import TupleS
+EmptyS = Struct('InstallEmptyDir', 'mesonbuild.backend.backends:InstallEmptyDir', path=Str, install_mode=Obj, subproject=Str, tag=Opt(Str))
+SI = "[e for e in __trace__ if e[0] == 'should_install']"
+GD = "[e for e in __trace__ if e[0] == 'get_destdir_path']"
+MK = "[e for e in __trace__ if e[0] == 'makedirs']"
+SM = "[e for e in __trace__ if e[0] == 'set_mode']"
+for k_ in (0, 1, 2):
+    DataK = Struct('InstallData', 'mesonbuild.backend.backends:InstallData', emptydir=TupleS(*([EmptyS] * k_)), install_umask=Int)
+    InstK = Struct('Installer', 'mesonbuild.minstall:Installer', did_install_something=Bool)
+    ens = [f"len({SI}) == {k_}"] + [f"{SI}[{j}][1] is d.emptydir[{j}]" for j in range(k_)]
+    # every directory whose path was computed is created and gets a mode: same number of events, pairwise the same path
+    ens += [f"len({MK}) == len({GD}) and len({SM}) == len({GD})",
+            f"all({MK}[i][1] is dm and {MK}[i][2] == {GD}[i][-1] and {SM}[i][1] == {GD}[i][-1] and {SM}[i][3] == d.install_umask for i in range(len({GD})))",
+            f"all(kw({MK}[i], 'exist_ok', False) is True for i in range(len({MK})))",
+            f"all({GD}[i][1] == destdir and {GD}[i][2] == fullprefix for i in range(len({GD})))"]
+    if k_ == 1:
+        ens += [f"implies({SI}[0][-1], len({GD}) == 1)", f"implies(not {SI}[0][-1], len({GD}) == 0)",
+                f"({GD}[0][3] == d.emptydir[0].path and {SM}[0][2] is d.emptydir[0].install_mode) if len({GD}) == 1 else True"]
+    if k_ == 2:
+        ens += [f"len({GD}) == (1 if {SI}[0][-1] else 0) + (1 if {SI}[1][-1] else 0)",
+                f"({GD}[0][3] == d.emptydir[0].path and {SM}[0][2] is d.emptydir[0].install_mode and {GD}[1][3] == d.emptydir[1].path and {SM}[1][2] is d.emptydir[1].install_mode) if len({GD}) == 2 else True",
+                f"implies({SI}[0][-1], {GD}[0][3] == d.emptydir[0].path and {SM}[0][2] is d.emptydir[0].install_mode) if len({GD}) == 1 else True",
+                f"implies(not {SI}[0][-1], {GD}[0][3] == d.emptydir[1].path and {SM}[0][2] is d.emptydir[1].install_mode) if len({GD}) == 1 else True"]
+    ens += [f"new(self).did_install_something == (self.did_install_something or len({GD}) > 0)"]
+    REG.contract('C11', I, 'Installer.install_emptydir', variant=f'entries{k_}', params={'self': InstK, 'd': DataK, 'dm': Obj, 'destdir': Str, 'fullprefix': Str},
+                 ensures=ens, raises={'SystemExit': 'True'}, exact_raises=False,
+                 effects={'get_destdir_path': {'returns': Str, 'raises': []}},
+                 method_effects={'should_install': {'returns': Bool, 'raises': []}, 'log': [], 'isfile': {'returns': Bool, 'raises': []}, 'makedirs': [], 'set_mode': []},
+                 modifies=['self.did_install_something'], floor=max(3, 3 * k_),
+                 note=f'{k_} entr{"y" if k_ == 1 else "ies"}: each selected entry: destination computed from (destdir, prefix, path), directory created with exist_ok, then set_mode(destination, its install_mode, install_umask) — always, also when the directory exists already; an existing FILE of that name aborts the installation')
